@@ -163,6 +163,35 @@ def menu(seed):
     return [0, 1, X - 1, X, 2**64 - 1, f]
 
 
+def crafted_digit_tuples(seed):
+    """digit tuples chosen by an INTERNAL boundary of the recombination y = c0 + c1|x| + c2|x|^2 + c3|x|^3 (the analogue of the crafted
+    Montgomery inputs): one digit c_i is solved for so that a 32-bit word of the partial product c_i*|x|^i is all ones (the word just
+    above the bit length of |x|^i, the only place where that can happen), and the lower digits are maximal so that their sum carries
+    into that word - plus the same tuples with the lower digits zero (no carry), and with one-less / one-more in the solved digit.
+    A word-wise accumulation that drops or stops a carry at an all-ones word shows here and nowhere near an operand boundary."""
+    out = []
+    fill = alpha.filler(seed, "c07craft", 0, 62) % X
+    for i in (1, 2, 3):
+        w = 2 * i                                   # |x|^i has just under 64*i bits: word w = bits 64i .. 64i+31 of the product
+        XI = X**i
+        lo = 0xFFFFFFFF << (32 * w)
+        top_room = (X * XI) >> (32 * (w + 1))       # values the bits above word w can take
+        for hi in sorted({0, 1, 2, top_room // 3, top_room // 2, max(0, top_room - 2), alpha.filler(seed, "c07hi%d" % i, 0, 40) % max(1, top_room)}):
+            target = (hi << (32 * (w + 1))) | lo
+            c = -(-target // XI)                    # smallest c with c * |x|^i >= target
+            for cc in (c - 1, c, c + 1):
+                if not (0 <= cc < X):
+                    continue
+                if cc == c and ((cc * XI) >> (32 * w)) & 0xFFFFFFFF != 0xFFFFFFFF:
+                    continue                        # no multiple with that word all ones for this hi
+                for lower in (X - 1, 0, fill):
+                    for higher in (0, 1, fill):
+                        t = [lower] * i + [cc] + [higher] * (3 - i)
+                        if sum(d * X**k for k, d in enumerate(t)) < ref.r:
+                            out.append(t)
+    return alpha.dedup(tuple(t) for t in out)
+
+
 def sequences(seed, tier):
     default = alpha.filler(seed, "c07dd", 0, 62) % X
     m = menu(seed)
@@ -178,7 +207,7 @@ def sequences(seed, tier):
             seqs.append(s)
     special = [[0, 0, X - 1, X - 1], [1, 0, X - 1, X - 1], [2, 0, X - 1, X - 1], [X - 1, X - 1, X - 1, X - 1], [0, 0, 0, 0], [1, 0, 0, 0],
                [X, X, X, 0, 0, X - 1, X - 1], [1, 0, X - 1, X - 1, 0, 0, X - 1, X - 1]]
-    return default, alpha.dedup(tuple(s) for s in seqs + special)
+    return default, alpha.dedup(tuple(s) for s in seqs + special + [list(t) for t in crafted_digit_tuples(seed)])
 
 
 def shards(ctx):
